@@ -1,4 +1,5 @@
 import Driver.Util
+import TurnModel.Model.BindConn
 import TurnModel.Model.Framer
 import TurnModel.Model.PortRange
 import TurnModel.Model.LtCred
@@ -29,6 +30,18 @@ def protoStep (toks : List String) : Option String :=
     let tail := match r with
       | some .invalid => "END invalid" | some .eof => "END eof" | some (.frame _) => "END ?" | none => "END fuel"
     some (String.intercalate " " (fs.map (fun f => "F " ++ toHex f) ++ [tail]))
+  | "bindconn" :: chunks =>
+    -- H10: the client's reading of the ConnectionBind reply; what is left belongs to the application
+    let r := Turn.BindConn.readReply (chunks.map parseHex)
+    let cls := match r.1 with
+      | .short => "short"
+      | .invalid => "invalid"
+      | .msg raw =>
+        let ty := (raw.getD 0 0).toNat * 256 + (raw.getD 1 0).toNat
+        let c1 := (ty / 256) % 2
+        let c0 := (ty / 16) % 2
+        if c1 == 1 && c0 == 0 then "ok" else if c1 == 1 && c0 == 1 then "refused" else "other"
+    some (cls ++ " rest=" ++ toHex r.2.flatten)
   | "framesb" :: cap :: chunks =>
     -- the caller's buffer holds `cap` bytes: ReadFrom reports the full frame size and copies what fits
     let cs := chunks.map parseHex
